@@ -40,19 +40,21 @@ def fast_sign(d, P, tbs):
 _cert_cache = {}
 
 
-def build_cert(level, attrs, issuer_level, serial, flip=False):
+def build_cert(level, attrs, issuer_level, serial, flip=False, fakeroot=None):
     """certificate of entity `level` with the attribute record, issued by entity `issuer_level` (None: self-signed anchor);
     flip: the other criticality of the known extensions (keyUsage and basicConstraints not critical, extKeyUsage critical)"""
-    ck = (level, json.dumps(attrs, sort_keys=True), issuer_level, flip)
+    ck = (level, json.dumps(attrs, sort_keys=True), issuer_level, flip, fakeroot)
     if ck in _cert_cache:
         return _cert_cache[ck]
     d, P = key(level)
     subject = "N%d" % level
     if issuer_level is None:
+        if fakeroot == level:
+            d, P = key(90 + level)          # a self-signed look-alike of the anchor: same name, another key
         issuer, (idd, iP) = subject, (d, P)
     else:
         issuer = ("N%d" % issuer_level) if attrs["iss"] else "Nowhere"
-        idd, iP = key(issuer_level)
+        idd, iP = key(90 + issuer_level) if fakeroot == issuer_level else key(issuer_level)
         if attrs["sig"] == "wrongkey":
             idd, iP = key(90 + level)
     exts = []
@@ -78,6 +80,24 @@ def build_cert(level, attrs, issuer_level, serial, flip=False):
     der = seq(tbs, seq(oid(OID_SM2SIGN)), dbits(sigval(r, s)))
     _cert_cache[ck] = der
     return der
+
+
+def concretise_rootsent(form, hist, fake):
+    """the as-built chain with the root certificate appended by the peer: the genuine anchor (fake=False), or a self-signed look-alike with the anchor's name
+    and another key under which the rest of the chain is consistently signed (fake=True); the trust store holds the genuine anchor"""
+    certs = [h for h in hist]
+    anchor = certs.pop()
+    nlead = 2 if form == "tlcp" else 1
+    cas = certs[nlead:]
+    top = len(cas) + 1
+    fr = top if fake else None
+    ders = [build_cert(0, certs[0], 1, 1000, fakeroot=fr)]
+    if form == "tlcp":
+        ders.append(build_cert(50, certs[1], 1, 1050, fakeroot=fr))
+    for i, ca in enumerate(cas):
+        ders.append(build_cert(i + 1, ca, i + 2, 1001 + i, fakeroot=fr))
+    ders.append(build_cert(top, anchor, None, 1900 + top, fakeroot=fr))
+    return b"".join(ders), build_cert(top, anchor, None, 1900 + top)
 
 
 def concretise(form, hist, flip=False):
@@ -217,16 +237,24 @@ def body():
     for ch in [x for x in uniq if x.get("_prop") and not x["sound"] and (not c.quick or len(x["hist"]) <= 4)]:
         uniq.append(dict(ch, flip=True, must=False))
     log("[C07] + %d criticality variants of unsound chains" % sum(1 for x in uniq if x.get("flip")))
+    # the peer sends the root as well: the genuine one (conditions hold; no must-accept claim), and a look-alike carrying the anchor's name (must be refused:
+    # the last certificate has to verify under a certificate of the trust store, a matching name is not enough)
+    for form in ("tls", "tlcp"):
+        for role in ("server", "client"):
+            for k in range(0, 3):
+                h0 = asbuilt(form, k)
+                uniq.append({"form": form, "role": role, "depth": 5, "hist": h0, "sound": True, "must": False, "rootsent": "genuine"})
+                uniq.append({"form": form, "role": role, "depth": 5, "hist": h0, "sound": False, "must": False, "rootsent": "lookalike"})
     lines = []
     for i, ch in enumerate(uniq):
-        chain, trust = concretise(ch["form"], ch["hist"], ch.get("flip", False))
+        chain, trust = concretise(ch["form"], ch["hist"], ch.get("flip", False)) if not ch.get("rootsent") else concretise_rootsent(ch["form"], ch["hist"], ch["rootsent"] == "lookalike")
         lines.append({"id": i + 1, "form": ch["form"], "role": ch["role"], "depth": ch["depth"], "chain": chain.hex(), "trust": trust.hex()})
     res = CL.run_script("chaindrv", ["chaindrv.c", "vh.c"], lines, tag="c07")
     drift = 0
     for (case, evs, san), ch in zip(res, uniq):
         desc = "%s:%s:d%d:" % (ch["form"], ch["role"], ch["depth"]) + "|".join(
             "bc=%s,plc=%s,ku=%s,eku=%s,%s,sig=%s,iss=%s,%s" % (h["bc"], h["plc"], h["ku"], h["eku"], h["valid"], h["sig"], h["iss"], h["crit"]) for h in ch["hist"])
-        key = "c07:" + desc + (":othercrit" if ch.get("flip") else "")
+        key = "c07:" + desc + (":othercrit" if ch.get("flip") else "") + (":rootsent=" + ch["rootsent"] if ch.get("rootsent") else "")
         c.count(1, key)
         if san or not evs:
             c.violation(key[:150] + ":crash", "driver died / sanitizer report: %s" % san, {"chain": ch})
